@@ -1,6 +1,14 @@
 use crate::fw::{Report, Tier};
 use serde_json::Value;
 
+pub mod c03_2pc;
+pub mod c06_search;
+pub mod c07_snapshot;
+pub mod c12_locks;
+pub mod c13_txrecovery;
+pub mod c16_chain;
+pub mod c17_merge;
+pub mod c19_blob;
 pub mod c20_ids;
 
 pub type RunFn = fn(Tier, u64) -> Report;
@@ -8,6 +16,14 @@ pub type ReplayFn = fn(&str, &Value) -> Result<String, String>;
 
 pub fn all() -> Vec<(&'static str, RunFn, ReplayFn)> {
     vec![
+        ("c03_2pc", c03_2pc::run, c03_2pc::replay),
+        ("c06_search", c06_search::run, c06_search::replay),
+        ("c07_snapshot", c07_snapshot::run, c07_snapshot::replay),
+        ("c12_locks", c12_locks::run, c12_locks::replay),
+        ("c13_txrecovery", c13_txrecovery::run, c13_txrecovery::replay),
+        ("c16_chain", c16_chain::run, c16_chain::replay),
+        ("c17_merge", c17_merge::run, c17_merge::replay),
+        ("c19_blob", c19_blob::run, c19_blob::replay),
         ("c20_ids", c20_ids::run, c20_ids::replay),
     ]
 }
